@@ -46,10 +46,12 @@ META = {
             'and all overrides in subclasses, any other receiver resolves to every method named m in the analysed packages, '
             'calls through variables resolve to every function referenced as a value; getattr / setattr with a non-constant '
             'name, __setattr__ / __getattr__ hooks, exec / eval / globals() make the analysis fail closed (ANALYSIS-ERROR). '
-            'Alias analysis is flow-insensitive per function and field-insensitive: an object stays "rooted" in shared state '
-            'through attribute access, subscripts, iteration, .get/.values/.items and callee results that return self / a '
-            'parameter / a global; list()/dict()/sorted()/copy/deepcopy, slices, comprehensions and literals yield fresh '
-            'objects. Not decided: mutation of a shared object reached through a field of a per-call object (e.g. '
+            'Alias analysis is per function, field-insensitive, and flow-insensitive except that a binding which dominates a '
+            'write site in straight-line code kills earlier bindings of the same local: an object stays "rooted" in shared '
+            'state through attribute access, subscripts, iteration, .get/.values/.items and callee results that return self '
+            '/ a parameter / a global; list()/dict()/sorted()/copy/deepcopy, slices, comprehensions and literals yield fresh '
+            'objects (a shallow copy is treated as fresh: mutation of an *element* of a copied container is not seen). '
+            'Not decided: mutation of a shared object reached through a field of a per-call object (e.g. '
             'MatchResult.canonical_values aliases the trie value list - checked by attribute name only); augmented '
             'assignment to a plain local alias (`x += [..]`) unless the right-hand side is a container display; Decimal '
             'values that travel through object fields (`pr.value * 2` is not recognised as Decimal arithmetic); that '
@@ -130,8 +132,8 @@ def is_const_str(e):
 class Unit:
     __slots__ = ('mod', 'cls', 'node', 'name', 'qual', 'pos', 'kwonly', 'vararg', 'kwarg', 'is_static', 'is_classmethod',
                  'recv', 'formals', 'kind', 'decos', 'locals', 'gdecl', 'binds', 'stores', 'calls', 'returns', 'augs',
-                 'env', 'mut', 'ret', 'oneshot', 'oneshot_ret', 'memo', 'lambdas', 'all_params', 'trivial', 'dels',
-                 'ctx_deco', 'in_scope', 'defaults', 'limports', 'pos', 'bind_pos', 'loops')
+                 'env', 'mut', 'ret', 'oneshot', 'oneshot_ret', 'memo', 'lambdas', 'all_params', 'trivial',
+                 'defaults', 'limports', 'where', 'bind_pos', 'loops')
 
     def __init__(self, mod, cls, node):
         self.mod, self.cls, self.node = mod, cls, node
@@ -162,13 +164,11 @@ class Unit:
         else:
             self.kind = 'plain'
         self.memo = any(d in MEMO_DECORATORS for d in self.decos)
-        self.ctx_deco = None
         self.locals = set(self.all_params)
         self.gdecl = set()
         self.binds = []      # (name, value expr | None, mode)   mode: 'assign' | 'elem' | 'iter' | 'fresh' | ('lambda', call)
         self.stores = []     # (target expr, stmt node, kind, value expr | None)
         self.augs = []       # (name, stmt node, value)   augmented assignment to a plain name
-        self.dels = []
         self.calls = []      # ast.Call
         self.returns = []    # exprs
         self.lambdas = []
@@ -178,9 +178,8 @@ class Unit:
         self.oneshot = set()
         self.oneshot_ret = False
         self.trivial = False
-        self.in_scope = True
         self.limports = {}
-        self.pos = {}         # id(stmt | call) -> (line, block path)
+        self.where = {}       # id(stmt | call) -> (line, block path)
         self.bind_pos = []    # parallel to binds
         self.loops = set()    # ids of loop statements / comprehensions
         self.defaults = {}
@@ -298,7 +297,7 @@ class _Collect(ast.NodeVisitor):
             self._target(t.value, value, mode, stmt)
         elif isinstance(t, (ast.Attribute, ast.Subscript)):
             u.stores.append((t, stmt, 'store', value))
-            u.pos[id(stmt)] = self.here(stmt)
+            u.where[id(stmt)] = self.here(stmt)
             self.visit(t)
 
     def visit_If(self, n):
@@ -348,7 +347,7 @@ class _Collect(ast.NodeVisitor):
     def visit_AugAssign(self, n):
         self.visit(n.value)
         t = n.target
-        self.u.pos[id(n)] = self.here(n)
+        self.u.where[id(n)] = self.here(n)
         if isinstance(t, ast.Name):
             self.u.locals.add(t.id)
             self.u.augs.append((t.id, n, n.value))
@@ -360,7 +359,7 @@ class _Collect(ast.NodeVisitor):
         for t in n.targets:
             if isinstance(t, (ast.Attribute, ast.Subscript)):
                 self.u.stores.append((t, n, 'del', None))
-                self.u.pos[id(n)] = self.here(n)
+                self.u.where[id(n)] = self.here(n)
                 self.visit(t)
 
     def visit_For(self, n):
@@ -414,7 +413,7 @@ class _Collect(ast.NodeVisitor):
 
     def visit_Call(self, n):
         self.u.calls.append(n)
-        self.u.pos[id(n)] = self.here(n)
+        self.u.where[id(n)] = self.here(n)
         lams = [a for a in list(n.args) + [k.value for k in n.keywords] if isinstance(a, ast.Lambda)]
         for lam in lams:
             for x in lam.args.posonlyargs + lam.args.args:
@@ -668,7 +667,7 @@ class Analysis:
     # ---- which bindings of a local reach a site (straight-line kill; conservative everywhere else)
     def at(self, u, node):
         """evaluate the following R() calls at the position of `node` in u (None: flow-insensitively)"""
-        self._at = u.pos.get(id(node)) if node is not None else None
+        self._at = u.where.get(id(node)) if node is not None else None
         self._at_unit = u if self._at is not None else None
 
     def reaching_roots(self, u, name, pos):
@@ -710,8 +709,6 @@ class Analysis:
             nm, value, mode = u.binds[i]
             out = out | self._bind_roots(u, value, mode)
         self._at, self._at_unit = saved
-        if name in u.all_params and dom is None:
-            out = out | u.env.get(name, EMPTY)
         return out
 
     # ---- roots of an expression
@@ -1349,7 +1346,8 @@ class Analysis:
 
     def actual_roots(self, k, c, how, shift, recv, h, formal):
         """roots (in caller k) of the expression bound to `formal` of callee h at call c; None = a freshly built object"""
-        self.at(k, c) if k is not None else self.at(None, None) if False else None
+        if k is not None:
+            self.at(k, c)
         try:
             return self._actual_roots(k, c, how, shift, recv, h, formal)
         finally:
@@ -1866,13 +1864,9 @@ def rule_cache(chk, A):
             if len(vals) != 1:
                 return None, 'the key variable %s is bound %d times' % (e.id, len(vals))
             e = vals[0]
-        if not isinstance(e, (ast.Call, ast.Tuple)):
-            return None, 'the key is not a tuple / key-type construction'
-        args = list(e.elts) if isinstance(e, ast.Tuple) else list(e.args) + [k.value for k in e.keywords]
-        used = []
-        for a in args:
-            names = {n.id for n in ast.walk(a) if isinstance(n, ast.Name)} & set(u.formals)
-            used.extend(sorted(names))
+        if isinstance(e, (ast.Constant, ast.Name)):
+            return None, 'the key is a constant / an unanalysed name'
+        used = sorted({n.id for n in ast.walk(e) if isinstance(n, ast.Name)} & set(u.formals))
         return used, None
 
     for u, t, stmt, kind, value in writers:
@@ -2175,6 +2169,8 @@ def _default_pair(A, u, p):
 
 
 def rule_ambient(chk, A):
+    per_module = {}
+    wrappers = {}       # id(unit) -> description: `def _now(self): return datetime.now()` - judged where it is called
     for m in A.idx.mods.values():
         if not A.in_scope(m):
             continue
@@ -2182,7 +2178,45 @@ def rule_ambient(chk, A):
                                         'platform', 'locale', 'getpid', 'tempfile', 'socket', 'getpass', 'argv')):
             continue
         sites, parents = ambient_sites(A, m)
+        per_module[m.name] = (m, sites, parents)
         for n, desc, fn in sites:
+            u = A.unit_of.get(id(fn)) if fn is not None else None
+            if u is None:
+                continue
+            body = [st for st in u.node.body if not (isinstance(st, ast.Expr) and isinstance(st.value, ast.Constant))]
+            if len(body) == 1 and isinstance(body[0], ast.Return) and body[0].value is n and not u.defaults:
+                wrappers[id(u)] = desc
+    if wrappers:
+        wnames = {u.name for u in A.units if id(u) in wrappers}
+        for k in A.units:
+            for c in k.calls:
+                f = c.func
+                nm = f.attr if isinstance(f, ast.Attribute) else f.id if isinstance(f, ast.Name) else None
+                if nm not in wnames:
+                    continue
+                hit = [h for h in A.candidates(k, c)[0] if id(h) in wrappers]
+                if not hit:
+                    continue
+                m = k.mod
+                if m.name not in per_module:
+                    per_module[m.name] = (m, [], None)
+                mm, sites, parents = per_module[m.name]
+                if parents is None:
+                    parents = {}
+                    for x in ast.walk(m.tree):
+                        for ch in ast.iter_child_nodes(x):
+                            parents[id(ch)] = x
+                sites.append((c, '%s() [returns %s]' % (nm, wrappers[id(hit[0])]), k.node))
+                per_module[m.name] = (mm, sites, parents)
+    for mname in sorted(per_module):
+        m, sites, parents = per_module[mname]
+        for n, desc, fn in sites:
+            wu = A.unit_of.get(id(fn)) if fn is not None else None
+            if wu is not None and id(wu) in wrappers and isinstance(n, ast.Call) and any(
+                    isinstance(st, ast.Return) and st.value is n for st in wu.node.body):
+                chk.exempt(R_AMB, m.path, wu.qual, 'a one-line wrapper around the ambient read: judged at every call of '
+                           '%s()' % wu.name, '%s: wrapper' % desc, n.lineno)
+                continue
             u = A.unit_of.get(id(fn)) if fn is not None else None
             if u is None and fn is not None:
                 # nested function: attribute to the outermost unit
